@@ -12,6 +12,22 @@ IdBytes(spec) == CASE spec.kind \in {"default", "absent"} -> DefaultID
                    [] spec.kind = "len" -> [i \in 1..spec.n |-> 65 + (i % 26)]
 Hex(bs) == FoldLeft(LAMBDA acc, b : acc \o HexDigit(b \div 16) \o HexDigit(b % 16), "", bs)
 
+\* ---- GM/T 0003.3 key exchange (cofactor 1, w = 127) ----
+Pow127 == "80000000000000000000000000000000"
+XHat(xc) == BAdd(Pow127, BAnd(xc, "7fffffffffffffffffffffffffffffff"))
+KX(x) ==
+  LET PA == PMul(C, x.da, G(C)) PB == PMul(C, x.db, G(C)) RA == PMul(C, x.ra, G(C)) RB == PMul(C, x.rb, G(C))
+      tA == BAddMod(x.da, BMulMod(XHat(RA.x), x.ra, C.n), C.n)
+      tB == BAddMod(x.db, BMulMod(XHat(RB.x), x.rb, C.n), C.n)
+      U == PMul(C, tA, PAdd(C, PB, PMul(C, XHat(RB.x), RB)))        \* initiator's point
+      V == PMul(C, tB, PAdd(C, PA, PMul(C, XHat(RA.x), RA)))        \* responder's point
+      za == ZA(IdBytes(x.ida), PA.x, PA.y) zb == ZA(IdBytes(x.idb), PB.x, PB.y)
+      inner == Digest(B32(V.x) \o za \o zb \o B32(RA.x) \o B32(RA.y) \o B32(RB.x) \o B32(RB.y))
+  IN IF x.kind = "findkx" THEN [xlen |-> Len(BToBytes(V.x, 0)), ylen |-> Len(BToBytes(V.y, 0)), same |-> U = V]
+     ELSE [same |-> U = V, pa |-> <<PA.x, PA.y>>, pb |-> <<PB.x, PB.y>>, ra |-> <<RA.x, RA.y>>, rb |-> <<RB.x, RB.y>>,
+           k |-> KDF(B32(V.x) \o B32(V.y) \o za \o zb, x.klen),
+           s1 |-> Digest(<<2>> \o B32(V.y) \o inner), s2 |-> Digest(<<3>> \o B32(V.y) \o inner)]
+
 Eval(x) ==
   CASE x.kind = "findkey" -> \* public point of a small private key, to find coordinates with leading zero bytes
          LET P == PMul(C, BFromInt(x.d), G(C)) IN [x |-> P.x, y |-> P.y, xlen |-> Len(BToBytes(P.x, 0)), ylen |-> Len(BToBytes(P.y, 0))]
@@ -45,6 +61,7 @@ Eval(x) ==
          IN [oncurve |-> OnCurve(C, x.x0, x.y0), c1c3c2 |-> Raw(ct, TRUE), c1c2c3 |-> Raw(ct, FALSE), reject |-> ~Dec(x.d, x.x0, x.y0, ct.c2, ct.c3).ok]
     [] x.kind = "decspec" -> \* the standard's verdict on given components
          LET r == Dec(x.d, BFromBytes(x.x1), BFromBytes(x.y1), x.c2, x.c3) IN [ok |-> r.ok, m |-> IF r.ok THEN r.m ELSE <<>>]
+    [] x.kind \in {"kx", "findkx"} -> KX(x)
 Init == c \in 1..Len(CaseSeq) /\ done = FALSE
 Next == /\ ~done /\ done' = TRUE /\ c' = c
         /\ PrintT(<<"CASE", ToJson([case |-> CaseSeq[c], expect |-> Eval(CaseSeq[c])])>>)
